@@ -429,7 +429,7 @@ def replay_graph(ctx, res, L, R, family, depth, parametric=()):
         raise MachineryError('no graph exported for ' + family)
     a = MAAdapter(L, R, ctx.seed)
     w = Walker(ctx, g, a, family)
-    ne = w.cover_edges()
+    ne = w.cover_edges(stutter=True)
     ctx.traces += ne
     ctx.stage(family, graph_states=len(g.state), graph_edges=g.n_edges, edges_replayed=ne,
               reference_interpreter_states_checked_against_TLC=a.ref_checked, real_calls=w.steps)
